@@ -763,6 +763,8 @@ void GlobalGraph::setRoot(Graph::NodeId newRoot)
 {
   nodeMustExist_(newRoot, "new root");
   root_ = newRoot;
+  // being a tree depends on the root: cached validity must not survive
+  this->topologyHasChanged_();
 }
 
 Graph::NodeId GlobalGraph::getRoot() const
